@@ -326,6 +326,47 @@ Theorem C16_powershell_generate_total : forall up c bin t,
 Proof. exact PowershellProofs.powershell_generate_total. Qed.
 Print Assumptions C16_powershell_generate_total.
 
+(** coverage stated for [clap_complete::aot::generate] as a whole: for every command tree, texts and non-empty
+    bin name there is ONE script, and for EVERY path of names or visible aliases of the built tree, at every depth,
+    it contains the block of that path with the entries listed in C16_<shell>_covers *)
+Theorem C16_elvish_generate_covers : forall c t bin, bin <> [] ->
+  exists b script,
+    build (set_bin_name c bin) = Some b /\ ElvishModel.generate_elvish c t bin = Some script /\
+    forall ws ns n, reach b ws ns n ->
+      exists tn,
+        PathTable.infix (ElvishModel.case_block (PathTable.path_key bin ws) (PathTable.entries ElvishProofs.el_fmt n tn)) script /\
+        (forall a s0 s, In a (c_args n) -> a_is_positional a = false -> a_short a = Some s0 ->
+           (s = s0 \/ In (s, true) (a_short_aliases a)) ->
+           exists tip, PathTable.infix (ElvishProofs.el_short s tip) (PathTable.entries ElvishProofs.el_fmt n tn)) /\
+        (forall a l0 l, In a (c_args n) -> a_is_positional a = false -> a_long a = Some l0 ->
+           (l = l0 \/ In (l, true) (a_aliases a)) ->
+           exists tip, PathTable.infix (ElvishProofs.el_long l tip) (PathTable.entries ElvishProofs.el_fmt n tn)) /\
+        (forall sc w, In sc (c_subs n) -> In w (get_name_and_visible_aliases sc) ->
+           exists tip, PathTable.infix (ElvishProofs.el_sub w tip) (PathTable.entries ElvishProofs.el_fmt n tn)).
+Proof. exact ElvishProofs.elvish_generate_covers. Qed.
+Print Assumptions C16_elvish_generate_covers.
+
+Theorem C16_powershell_generate_covers : forall up c t bin, bin <> [] ->
+  exists b script,
+    build (set_bin_name c bin) = Some b /\ PowershellModel.generate_powershell up c t bin = Some script /\
+    forall ws ns n, reach b ws ns n ->
+      exists tn,
+        PathTable.infix (PowershellModel.case_block (PathTable.path_key bin ws)
+                           (PathTable.entries (PowershellProofs.ps_fmt up) n tn)) script /\
+        (forall a s0 s, In a (c_args n) -> a_is_positional a = false -> a_short a = Some s0 ->
+           (s = s0 \/ In (s, true) (a_short_aliases a)) ->
+           exists tip, PathTable.infix (PowershellProofs.ps_short up s tip)
+                         (PathTable.entries (PowershellProofs.ps_fmt up) n tn)) /\
+        (forall a l0 l, In a (c_args n) -> a_is_positional a = false -> a_long a = Some l0 ->
+           (l = l0 \/ In (l, true) (a_aliases a)) ->
+           exists tip, PathTable.infix (PowershellProofs.ps_long l tip)
+                         (PathTable.entries (PowershellProofs.ps_fmt up) n tn)) /\
+        (forall sc w, In sc (c_subs n) -> In w (get_name_and_visible_aliases sc) ->
+           exists tip, PathTable.infix (PowershellProofs.ps_sub w tip)
+                         (PathTable.entries (PowershellProofs.ps_fmt up) n tn)).
+Proof. exact PowershellProofs.powershell_generate_covers. Qed.
+Print Assumptions C16_powershell_generate_covers.
+
 (** the block of a path IS what the shell finds under the key it computes from the command line: the
     script is the list [blocks] rendered block by block in order; when sibling names and aliases are
     distinct (clap's own check) and no name contains the separator [;] ([no_semi]), the block keyed by the
